@@ -154,8 +154,8 @@ theorem rdfa_rev_property_literal (C : Spec.Rdfa.Ctx) (n : Nat) (a p q r txt : S
     (hinc : C.incomplete = []) (ha : Spec.Rdfa.resSCI C.env a = some S) (hr : Spec.Rdfa.resSCI C.env r = some O)
     (hp1 : Spec.Html.fields p = [p]) (hp2 : (Spec.Html.splitColon p).isSome = true)
     (hp : Spec.Rdfa.resTCAs C.env p = [p]) (hq : Spec.Rdfa.resTCAs C.env q = [q]) :
-    Spec.Rdfa.procNode C [] n (.elem .span { about := some a, rev := some p, property := some q, resource := some r,
-        lang := some [] } [.text txt]) =
+    Spec.Rdfa.procNode C [] n
+        (.elem .span { about := some a, rev := some p, property := some q, resource := some r, lang := some [] } [.text txt]) =
       { out := [⟨O, p, S⟩, ⟨S, q, .lit txt xsdString none⟩], lm := [], next := n } :=
   Spec.Rdfa.rev_property_literal C n a p q r txt S O hinc ha hr hp1 hp2 hp hq
 
